@@ -563,9 +563,9 @@ def _encode(command: str, components: list[int], parts: list[str]) -> tuple[byte
 
 
 def _extended_community_hex(value: str) -> ExtendedCommunity:
-    # we could raise if the length is not 8 bytes (16 chars)
-    if len(value) % 2:
-        raise ValueError('invalid extended community {}'.format(value))
+    # an extended community is 8 octets: '0x' and 16 hexadecimal digits
+    if len(value) != 18:
+        raise ValueError('invalid extended community {} (8 octets are expected)'.format(value))
     raw = b''.join(bytes([int(value[_ : _ + 2], 16)]) for _ in range(2, len(value), 2))
     return cast(ExtendedCommunity, ExtendedCommunity.unpack_attribute(raw, None))
 
